@@ -12,7 +12,7 @@ AFTER = {
     "C04-sync-skipped-on-error": "journals whose replay ends with an error (one data block failing its v2/v3 tag checksum)",
     "C04-flush-skips-fsync-after-eviction": "journal shape 'revoked tail' (8-20 logged blocks revoked by the last transaction)",
     "C08-dirblock-csum-not-rewritten": "multi-block directory of hard links to low inodes, created in a high group, on the shrink images (found debugfs rm leaking xattr blocks first, fixed: 9f99a3b3)",
-    "C08-desperation-ignores-reserve": None,
+    "C08-desperation-ignores-reserve": "engineered 'packed' images (first 15 groups full to the last block and inode, files behind them, forced shrink below the estimate) with mostly-zero file data - with dense data the changed resize2fs aborted with the error flag, which the property allows",
     "C09-truncate-keeps-buffer": "motif shrink-inside-the-buffered-block then regrow through the same handle",
     "C09-extent-first-block-merge-parents": "motif 'leaf edges': > 84 extents, written block + 2-block preallocation groups, then writes into the first preallocated block",
     "C11-inode-bitmap-not-repointed": "^flex_bg + RAID stride base image and a forced 'grow inode size on a stride layout' sequence",
@@ -21,6 +21,7 @@ AFTER = {
     "C14-inode-csum-extra-isize-4": "producer pipeline rewriting inodes with i_extra_isize 4..32 through debugfs",
     "C17-thread-start-32bit-wrap": "sparse filesystems with more than 2^32 clusters (1 thread vs 2,3,5,16)",
     "C19-l2-cache-partial-clear": "156 MiB block-mapped file on the sparse ext3 image: metadata in > 512 qcow2 L2 tables",
+    "C11-full-htree-node-csum-tail": "base image with a 4500-entry directory compacted by e2fsck -fD while checksums were off (full interior htree node, every leaf with spare room) and a forced 'enable metadata_csum on a full htree node' sequence",
     "C05-empty-xattr-value-collision": "corpus image with 128-byte inodes and empty-valued attributes in xattr blocks",
 }
 rows = []
